@@ -211,6 +211,13 @@ impl ManagedXValue {
     { unimplemented!() }
 }
 
+/// `&LazyBigint + usize` / `LazyBigint + usize` (util/lazy_bigint.rs, by V-int's contract: the exact sum)
+impl<'a> core::ops::Add<usize> for &'a LazyBigint { type Output = LazyBigint; #[verifier::external_body] fn add(self, rhs: usize) -> LazyBigint { unimplemented!() } }
+impl<'a> vstd::std_specs::ops::AddSpecImpl<usize> for &'a LazyBigint {
+    open spec fn obeys_add_spec() -> bool { true }
+    open spec fn add_req(self, rhs: usize) -> bool { true }
+    open spec fn add_spec(self, rhs: usize) -> LazyBigint { lbv(self.val() + rhs) }
+}
 /// std::collections::hash_map::DefaultHasher as the list of words written to it; `finish` is a function of that list
 pub struct DefaultHasher { pub w: Ghost<Seq<u64>> }
 pub uninterp spec fn hfin(w: Seq<u64>) -> u64;
